@@ -1,0 +1,270 @@
+//! Verification hooks, compiled only with the `verif_hooks` feature.
+//!
+//! Lock shims: same surface as the parking_lot types used by this workspace, plus a
+//! process-global tap that sees every request / acquisition / release.
+
+use std::{
+    fmt,
+    ops::{Deref, DerefMut},
+    sync::{
+        Arc, RwLock as StdRwLock,
+        atomic::{AtomicBool, Ordering},
+    },
+};
+
+#[derive(Debug, Clone, Copy, PartialEq, Eq)]
+pub enum LockPhase {
+    Request,
+    Acquired,
+    Released,
+}
+
+#[derive(Debug, Clone, Copy)]
+pub struct LockEvent {
+    pub class: &'static str,
+    pub addr: usize,
+    pub write: bool,
+    pub phase: LockPhase,
+}
+
+pub type LockTap = dyn Fn(&LockEvent) + Send + Sync;
+
+static TAP: StdRwLock<Option<Arc<LockTap>>> = StdRwLock::new(None);
+static TAP_ON: AtomicBool = AtomicBool::new(false);
+
+pub fn set_lock_tap(tap: Option<Arc<LockTap>>) {
+    let on = tap.is_some();
+    *TAP.write().unwrap() = tap;
+    TAP_ON.store(on, Ordering::SeqCst);
+}
+
+#[inline]
+fn emit(class: &'static str, addr: usize, write: bool, phase: LockPhase) {
+    if !TAP_ON.load(Ordering::Relaxed) {
+        return;
+    }
+    let tap = TAP.read().unwrap().clone();
+    if let Some(tap) = tap {
+        tap(&LockEvent {
+            class,
+            addr,
+            write,
+            phase,
+        });
+    }
+}
+
+pub struct RwLock<T>(parking_lot::RwLock<T>);
+
+impl<T> RwLock<T> {
+    pub const fn new(v: T) -> Self {
+        Self(parking_lot::RwLock::new(v))
+    }
+
+    #[inline]
+    fn id(&self) -> (&'static str, usize) {
+        (std::any::type_name::<T>(), self as *const _ as usize)
+    }
+
+    pub fn read(&self) -> RwLockReadGuard<'_, T> {
+        let (class, addr) = self.id();
+        emit(class, addr, false, LockPhase::Request);
+        let inner = self.0.read();
+        emit(class, addr, false, LockPhase::Acquired);
+        RwLockReadGuard { inner, class, addr }
+    }
+
+    pub fn write(&self) -> RwLockWriteGuard<'_, T> {
+        let (class, addr) = self.id();
+        emit(class, addr, true, LockPhase::Request);
+        let inner = self.0.write();
+        emit(class, addr, true, LockPhase::Acquired);
+        RwLockWriteGuard { inner, class, addr }
+    }
+
+    pub fn into_inner(self) -> T {
+        self.0.into_inner()
+    }
+}
+
+impl<T: fmt::Debug> fmt::Debug for RwLock<T> {
+    fn fmt(&self, f: &mut fmt::Formatter<'_>) -> fmt::Result {
+        self.0.fmt(f)
+    }
+}
+
+impl<T: Default> Default for RwLock<T> {
+    fn default() -> Self {
+        Self::new(T::default())
+    }
+}
+
+pub struct RwLockReadGuard<'a, T> {
+    inner: parking_lot::RwLockReadGuard<'a, T>,
+    class: &'static str,
+    addr: usize,
+}
+
+impl<T> Deref for RwLockReadGuard<'_, T> {
+    type Target = T;
+    #[inline(always)]
+    fn deref(&self) -> &T {
+        &self.inner
+    }
+}
+
+impl<T> Drop for RwLockReadGuard<'_, T> {
+    fn drop(&mut self) {
+        emit(self.class, self.addr, false, LockPhase::Released);
+    }
+}
+
+pub struct RwLockWriteGuard<'a, T> {
+    inner: parking_lot::RwLockWriteGuard<'a, T>,
+    class: &'static str,
+    addr: usize,
+}
+
+impl<T> Deref for RwLockWriteGuard<'_, T> {
+    type Target = T;
+    #[inline(always)]
+    fn deref(&self) -> &T {
+        &self.inner
+    }
+}
+
+impl<T> DerefMut for RwLockWriteGuard<'_, T> {
+    #[inline(always)]
+    fn deref_mut(&mut self) -> &mut T {
+        &mut self.inner
+    }
+}
+
+impl<T> Drop for RwLockWriteGuard<'_, T> {
+    fn drop(&mut self) {
+        emit(self.class, self.addr, true, LockPhase::Released);
+    }
+}
+
+pub struct Mutex<T>(parking_lot::Mutex<T>);
+
+impl<T> Mutex<T> {
+    pub const fn new(v: T) -> Self {
+        Self(parking_lot::Mutex::new(v))
+    }
+
+    pub fn lock(&self) -> MutexGuard<'_, T> {
+        let class = std::any::type_name::<T>();
+        let addr = self as *const _ as usize;
+        emit(class, addr, true, LockPhase::Request);
+        let inner = self.0.lock();
+        emit(class, addr, true, LockPhase::Acquired);
+        MutexGuard { inner, class, addr }
+    }
+}
+
+impl<T: fmt::Debug> fmt::Debug for Mutex<T> {
+    fn fmt(&self, f: &mut fmt::Formatter<'_>) -> fmt::Result {
+        self.0.fmt(f)
+    }
+}
+
+pub struct MutexGuard<'a, T> {
+    inner: parking_lot::MutexGuard<'a, T>,
+    class: &'static str,
+    addr: usize,
+}
+
+impl<T> Deref for MutexGuard<'_, T> {
+    type Target = T;
+    #[inline(always)]
+    fn deref(&self) -> &T {
+        &self.inner
+    }
+}
+
+impl<T> DerefMut for MutexGuard<'_, T> {
+    #[inline(always)]
+    fn deref_mut(&mut self) -> &mut T {
+        &mut self.inner
+    }
+}
+
+impl<T> Drop for MutexGuard<'_, T> {
+    fn drop(&mut self) {
+        emit(self.class, self.addr, true, LockPhase::Released);
+    }
+}
+
+// ---------------------------------------------------------------------------------------
+// Durability event tap (H2): every effect on the two files, in program order.
+
+/// Which file an effect applies to.
+#[derive(Debug, Clone, Copy, PartialEq, Eq)]
+pub enum FileId {
+    Data,
+    Regions,
+}
+
+#[derive(Debug, Clone)]
+pub enum IoEvent {
+    /// bytes stored through the shared mapping
+    Write { file: FileId, offset: usize, data: Vec<u8> },
+    SetLen { file: FileId, len: usize },
+    FlushAsync { file: FileId, offset: usize, len: usize },
+    FlushAsyncAll { file: FileId },
+    Sync { file: FileId },
+    Punch { offset: usize, len: usize },
+}
+
+pub type IoTap = dyn Fn(&IoEvent) + Send + Sync;
+
+static IO_TAP: StdRwLock<Option<Arc<IoTap>>> = StdRwLock::new(None);
+static IO_TAP_ON: AtomicBool = AtomicBool::new(false);
+
+pub fn set_io_tap(tap: Option<Arc<IoTap>>) {
+    let on = tap.is_some();
+    *IO_TAP.write().unwrap() = tap;
+    IO_TAP_ON.store(on, Ordering::SeqCst);
+}
+
+#[inline]
+pub fn io_tap_on() -> bool {
+    IO_TAP_ON.load(Ordering::Relaxed)
+}
+
+#[inline]
+pub fn io(ev: impl FnOnce() -> IoEvent) {
+    if !io_tap_on() {
+        return;
+    }
+    let tap = IO_TAP.read().unwrap().clone();
+    if let Some(tap) = tap {
+        tap(&ev());
+    }
+}
+
+// ---------------------------------------------------------------------------------------
+// Named pause points (H5): a controller may block a thread at a named program point.
+
+pub type PauseTap = dyn Fn(&'static str) + Send + Sync;
+
+static PAUSE_TAP: StdRwLock<Option<Arc<PauseTap>>> = StdRwLock::new(None);
+static PAUSE_ON: AtomicBool = AtomicBool::new(false);
+
+pub fn set_pause_tap(tap: Option<Arc<PauseTap>>) {
+    let on = tap.is_some();
+    *PAUSE_TAP.write().unwrap() = tap;
+    PAUSE_ON.store(on, Ordering::SeqCst);
+}
+
+#[inline]
+pub fn pause(name: &'static str) {
+    if !PAUSE_ON.load(Ordering::Relaxed) {
+        return;
+    }
+    let tap = PAUSE_TAP.read().unwrap().clone();
+    if let Some(tap) = tap {
+        tap(name);
+    }
+}
